@@ -58,6 +58,7 @@ func Set(r *Replay) {
 	pos = 0
 	params = r.Params
 	Reached = map[string]bool{}
+	RecHashes = nil
 }
 
 func next() uint64 {
@@ -177,7 +178,15 @@ type RecHash struct {
 	N   int
 }
 
-func NewRecHash(n int) *RecHash { return &RecHash{N: n} }
+// RecHashes lists every recording hash created since the last Set/Load, in
+// creation order, so that harnesses can inspect what was hashed.
+var RecHashes []*RecHash
+
+func NewRecHash(n int) *RecHash {
+	h := &RecHash{N: n}
+	RecHashes = append(RecHashes, h)
+	return h
+}
 
 func (h *RecHash) Write(p []byte) (int, error) {
 	h.Log = append(h.Log, p...)
